@@ -63,8 +63,13 @@ ALL = ["C01", "C02", "C03", "C04", "C05", "C08", "C09", "C10", "C11", "C12", "C1
 
 
 def global_variant(kind):
-    """whole-tree behaviour-preserving rewrites: 'unparse' (formatting / comments / line numbers), 'rename' (+ every local variable renamed)"""
-    r = subprocess.run([os.path.join(VERIF, "tools", "variant_unparse.py")] + (["rename"] if kind == "rename" else []), capture_output=True, text=True)
+    """whole-tree behaviour-preserving rewrites: 'unparse' (formatting / comments / line numbers), 'rename' (+ every local variable
+    renamed), 'retvar' (return E -> _r = E; return _r), 'ifswap' (if/else swapped under a negated test), 'hoist' (call arguments
+    hoisted into temporaries), 'marker' (a no-op statement at the start of every function and loop body), 'annassign' (x = E -> x: object = E)"""
+    if kind in ("unparse", "rename"):
+        r = subprocess.run([os.path.join(VERIF, "tools", "variant_unparse.py")] + (["rename"] if kind == "rename" else []), capture_output=True, text=True)
+    else:
+        r = subprocess.run([os.path.join(VERIF, "tools", "variant_ast.py"), kind], capture_output=True, text=True)
     d = r.stdout.strip().splitlines()[-1]
     try:
         res = []
@@ -106,7 +111,7 @@ def main():
                 print(f"FAIL {name} [{info}]")
                 for p, rc, viol, inc in res:
                     print(f"       {p}: exit={rc} violated={viol} inconclusive={inc}")
-    for kind in ("unparse", "rename"):
+    for kind in ("unparse", "rename", "retvar", "ifswap", "hoist", "marker", "annassign"):
         if args and not any(a in "global_" + kind for a in args):
             continue
         name, status, info, res = global_variant(kind)
